@@ -97,6 +97,8 @@ let () =
   let fam = Sys.argv.(1) in
   let (run, holds) =
     try List.assoc fam families with Not_found -> (prerr_endline ("unknown family " ^ fam); exit 2) in
+  let cover = try Some (List.assoc fam Families.covers) with Not_found -> None in
+  let cov : (string, int) Hashtbl.t = Hashtbl.create 64 in
   let n = ref 0 and k = ref 0 and s = ref 0 in
   (try
      while true do
@@ -112,11 +114,18 @@ let () =
               let vo = parse obs in
               let m = show (run vi) in
               let canon_obs = show vo in
-              if m <> canon_obs then (incr k; Printf.printf "K %d %s\n" !n m);
+              if m <> canon_obs then (incr k; Printf.printf "K %d %s\n" !n m)
+              else (match cover with
+                    | Some f -> (match f vi with
+                                 | VL l -> List.iter (fun x -> let key = show x in
+                                                       Hashtbl.replace cov key (1 + (try Hashtbl.find cov key with Not_found -> 0))) l
+                                 | _ -> ())
+                    | None -> ());
               if not (holds vi vo) then (incr s; Printf.printf "S %d\n" !n)
             with Failure msg -> Printf.printf "E %d %s\n" !n msg);
            incr n
        end
      done
    with End_of_file -> ());
+  Hashtbl.iter (fun key c -> Printf.printf "COV %s %d\n" key c) cov;
   Printf.printf "DONE %d %d %d\n" !n !k !s
